@@ -335,6 +335,16 @@ def run_world(opts, title):
     return [None, float(c["POP"]), float(c["POP"]) * min(1.0, r.percent_people_fed / 100), {"world": r}]
 
 
+_RUNNER = []
+
+
+def the_runner(cls):
+    """one runner object for all the by-country calls of a process, the way run_many_options reuses its runner"""
+    if not _RUNNER:
+        _RUNNER.append(cls())
+    return _RUNNER[0]
+
+
 def run_job(job):
     global CAP
     from src.scenarios.run_model_no_trade import ScenarioRunnerNoTrade
@@ -354,7 +364,7 @@ def run_job(job):
                 if job["cc"] == "WOR":
                     run_world(pre, "v%d_WOR_%s" % (os.getpid(), job["preset"]))
                 else:
-                    ScenarioRunnerNoTrade().run_model_no_trade(
+                    the_runner(ScenarioRunnerNoTrade).run_model_no_trade(
                         title="v%d_%s_%s" % (os.getpid(), job["cc"], job["preset"]), create_pptx_with_all_countries=False, scenario_option=pre,
                         countries_list=[job["cc"]], return_results=True)
         except BaseException:
@@ -384,13 +394,13 @@ def run_job(job):
 
                     ScenarioRunnerNoTrade.run_optimizer_for_country = w_rofc
                     try:
-                        out = ScenarioRunnerNoTrade().run_model_no_trade(
+                        out = the_runner(ScenarioRunnerNoTrade).run_model_no_trade(
                             title="v%d_%s_%s" % (os.getpid(), job["cc"], job["preset"]), create_pptx_with_all_countries=False,
                             scenario_option=opts, countries_list=list(job["with"]) + [job["cc"]], return_results=True)
                     finally:
                         ScenarioRunnerNoTrade.run_optimizer_for_country = orig_rofc
                 else:
-                    out = ScenarioRunnerNoTrade().run_model_no_trade(
+                    out = the_runner(ScenarioRunnerNoTrade).run_model_no_trade(
                         title="v%d_%s_%s" % (os.getpid(), job["cc"], job["preset"]), create_pptx_with_all_countries=False, scenario_option=opts,
                         countries_list=[job["cc"]], return_results=True)
         rec["ok"] = True
